@@ -180,7 +180,10 @@ def _domain(prog):
             continue
         direct = s["t"]["body"] if s["t"]["k"] == "block" else [s["t"]]
         if any(is_call(x, "rnode_free") for x in direct) and any(x["k"] == "return" for x in direct):
-            rejects.append(s["c"])
+            # only tests of the counts matter here (a test of the pattern text rejects for
+            # another reason and admits every count)
+            if any(x["k"] == "member" and x["field"] in rng for x in walk(s["c"])):
+                rejects.append(s["c"])
     return rng, rejects
 
 
@@ -199,6 +202,7 @@ _R1_CTX = None
 
 
 import threading
+ASSIGN_OPS = ("=", "+=", "-=", "*=", "/=", "%=", "|=", "&=", "^=", "<<=", ">>=")
 _R1_LOCK = threading.Lock()
 
 
@@ -798,4 +802,204 @@ def _count_var(rc):
 
 
 
-RULES = {"R1": rule_R1, "R2": rule_R2, "R3": rule_R3, "R7": rule_R7, "R8": rule_R8, "R10": rule_R10}
+def _parse_probe(prog, pat):
+    """abstractly evaluate rnode_parse on a pattern: (tree or None, bytes consumed, error seen)"""
+    f = prog.func("rnode_parse", file="regex.c")
+    err = []
+
+    def h_make(ip, fn, e, args, env):
+        return {"rn": args[0], "c1": args[1], "c2": args[2], "mincnt": 1, "maxcnt": 1, "ra": {}, "grp": 0}
+
+    def h_free(ip, fn, e, args, env):
+        err.append(1)                  # a partial tree is discarded only on a parse error
+        return None
+    cell = {"__deref__": Ptr(tuple(pat) + (0,))}
+    ip = Interp(prog, hooks={"rnode_make": h_make, "rnode_free": h_free, "malloc": lambda *a: {},
+                             "memcpy": lambda *a: None, "memset": lambda *a: None},
+                max_depth=60, max_steps=400000)
+    r = ip.call(f, [cell])
+    cur = cell["__deref__"]
+    return r, (cur.off if isinstance(cur, Ptr) else None), bool(err)
+
+
+def _r11_chunk(args):
+    prog, pats = args if len(args) == 2 else (_R11_PROG, args[0])
+    bad = None
+    n = 0
+    for pat in pats:
+        try:
+            r, rest, err = _parse_probe(prog, pat)
+        except OverRead as e:
+            return ("overread", pat, str(e)), n
+        except Unsupported as e:
+            if str(e) in ("loop bound", "step limit"):
+                # the evaluation is concrete: thousands of passes over a few bytes make no progress
+                return ("hang", pat, str(e)), n
+            return ("unsupported", pat, str(e)), n
+        n += 1
+        if err and isinstance(r, dict) and rest == len(pat) and bad is None:
+            bad = ("dropped", pat, "")
+    return bad, n
+
+
+_R11_PROG = None
+
+
+def rule_R11(ctx):
+    """What is compiled is the whole pattern: regcomp succeeds only with the parse cursor on the
+    terminator, and a parse error (a partial tree discarded) never leaves the cursor there.
+    Otherwise the part after the failing atom is silently dropped (replayed: b*a{999} compiled
+    as b*).  The parser is evaluated abstractly on every string up to a length bound over the
+    metacharacter alphabet plus long forms of each repetition error."""
+    ctx.begin("R11", floor=2, what="pattern compiled to its end or rejected")
+    from ..bounds import path_states
+    from ..lin import prove_le, PROVEN
+    prog = ctx.prog
+    rc = prog.func("regcomp", file="regex.c")
+    patp = rc.params[1]["name"]
+    # (a) success only with *pat == 0
+    n_ok = 0
+    bad = None
+    for r in rc.cfg.return_nodes():
+        if cval(r.get("e")) != 0:
+            continue
+        for subst, hyps, items in path_states(rc, r["id"]):
+            atoms = sorted({a_ for h_ in hyps for a_ in ((h_[1] if isinstance(h_, tuple) else h_).c)
+                            if a_.split("#")[0] == "(*%s)" % patp})
+            okp = False
+            for a_ in atoms:
+                A = Lin({a_: 1})
+                if prove_le(A, Lin(k=0), hyps) == PROVEN and prove_le(Lin(k=0), A, hyps) == PROVEN:
+                    okp = True
+            if okp:
+                n_ok += 1
+            else:
+                bad = r
+    if bad is not None:
+        ctx.violation("regcomp", "success only when the whole pattern was parsed",
+                      "a path returns 0 without testing that the parse cursor *%s reached the terminator: "
+                      "whatever follows the first atom that fails to parse (or a stray ')') is silently "
+                      "dropped, e.g. b*a{999} is compiled as b*" % patp, rc.loc(bad))
+    elif n_ok:
+        ctx.ok("regcomp", "every successful return has *%s == 0 (%d paths)" % (patp, n_ok))
+    else:
+        raise AnalysisBroken("regcomp: no successful return found")
+    # (c) structurally: parse errors surface through rnode_atom (the only caller of the group
+    # parser), and each of its NULL returns leaves the cursor untouched or puts it back
+    from ..cfg import paths_to
+    from ..util import path_consistent
+    at = prog.func("rnode_atom", file="regex.c")
+    cur = at.params[0]["name"]
+    freeers = {g.name for g in prog.funcs.values() if g.file == "regex.c" and
+               any(True for _ in g.calls("rnode_free")) and
+               any(p_["ty"].replace(" ", "") == "char**" for p_ in g.params)}
+    for gname in sorted(freeers - {"rnode_atom"}):
+        callers = {h.name for h in prog.funcs.values() for c in h.calls(gname)}
+        if not callers <= {"rnode_atom", gname}:
+            ctx.inconclusive(gname, "parse errors surface through rnode_atom",
+                             "%s discards a partial tree and is called from %s" % (gname, sorted(callers)))
+
+    def is_cur(e):
+        e = strip_casts(e)
+        return e is not None and e["k"] == "un" and e["op"] == "*" and strip_casts(e["e"])["k"] == "ref" \
+            and strip_casts(e["e"])["name"] == cur
+    snaps = {v["name"] for v in at.walk() if v["k"] == "var" and v.get("init") is not None and is_cur(v["init"])}
+    n_null = 0
+    worst = None
+    for r in at.cfg.return_nodes():
+        e = r.get("e")
+        from ..callgraph import is_null
+        if e is None or not (cval(e) == 0 or is_null(e)):
+            continue
+        for items in paths_to(at.cfg, at.cfg.entry, r["id"]):
+            if not path_consistent(at, items):
+                continue
+            n_null += 1
+            mods = []
+            for it in items:
+                if it[0] != "ev":
+                    continue
+                n = at.nodes.get(it[1])
+                if n is None:
+                    continue
+                if n["k"] == "un" and n["op"] in ("post++", "pre++", "post--", "pre--") and is_cur(n["e"]):
+                    mods.append(("step", n))
+                elif n["k"] == "bin" and n["op"] in ASSIGN_OPS and is_cur(n["l"]):
+                    rr = strip_casts(n["r"])
+                    if n["op"] == "=" and rr["k"] == "ref" and rr["name"] in snaps:
+                        mods.append(("restore", n))
+                    else:
+                        mods.append(("step", n))
+                elif n["k"] == "call" and any(strip_casts(a)["k"] == "ref" and strip_casts(a)["name"] == cur
+                                              for a in n["args"]):
+                    mods.append(("call", n))
+                elif n["k"] == "var" and n["name"] in snaps and mods:
+                    mods.append(("late snapshot", n))
+            if mods and mods[-1][0] != "restore":
+                worst = (r, mods[-1][1])
+    if n_null < 3:
+        raise AnalysisBroken("rnode_atom: only %d NULL-returning paths" % n_null)
+    if worst:
+        ctx.violation("rnode_atom", "a failed atom is not consumed",
+                      "a path returns NULL after `%s` moved the parse cursor and does not put it back: the "
+                      "failed atom is consumed and what follows it is silently dropped" % key(worst[1])[:50],
+                      at.loc(worst[0]))
+    else:
+        ctx.ok("rnode_atom", "on all %d NULL-returning paths the cursor is untouched or restored to its "
+               "entry value last" % n_null)
+    # (b) the parser, evaluated
+    NREPS = None
+    for n in prog.func("rnode_emit", file="regex.c").walk():
+        if n["k"] == "var" and n["name"] == "jmpend":
+            NREPS = n.get("arr_n")
+    if NREPS is None:
+        raise AnalysisBroken("rnode_emit: jmpend array not found")
+    alpha = [ord(c) for c in "a()|*{}9,[]\\"] + [0xc3, 0xa9]      # + a lead and a continuation byte
+    N = 5 if ctx.tier == "thorough" else 4
+    pats = [bytes(c) for L in range(1, N + 1) for c in itertools.product(alpha, repeat=L)]
+    big = str(NREPS + 1).encode()
+    for pre in (b"a", b"b*a", b"(a)", b"a|b"):
+        for suf in (b"{" + big + b"}", b"{1," + big + b"}", b"{2,1}", b"{" + big + b",}", b"(b", b"(b|", b")b"):
+            for post in (b"", b"c"):
+                pats.append(pre + suf + post)
+    global _R11_PROG
+    results = []
+    if len(pats) > 4000:
+        import multiprocessing as mp
+        chunks = [pats[i::32] for i in range(32)]
+        with _R1_LOCK:
+            _R11_PROG = prog
+            try:
+                with mp.get_context("fork").Pool(min(16, mp.cpu_count())) as pool:
+                    results = pool.map(_r11_chunk, [(c,) for c in chunks])
+            except (OSError, ValueError):
+                results = [_r11_chunk((prog, c)) for c in chunks]
+    else:
+        results = [_r11_chunk((prog, pats))]
+    n_eval = sum(n for b, n in results)
+    bads = [b for b, n in results if b]
+    for b in bads:
+        if b[0] in ("unsupported",):
+            raise AnalysisBroken("rnode_parse not evaluable on %r: %s" % (b[1], b[2]))
+    if bads:
+        b = sorted(bads, key=lambda x: (len(x[1]), x[1]))[0]
+        if b[0] == "hang":
+            ctx.violation("rnode_parse", "parser terminates",
+                          "on the pattern %r a loop of the parser stops consuming input (more than 5000 passes "
+                          "over %d bytes): regcomp never returns" % (b[1].decode("latin-1"), len(b[1])))
+        elif b[0] == "overread":
+            ctx.violation("rnode_parse", "parser stays inside the pattern",
+                          "on the pattern %r the parser %s" % (b[1].decode("latin-1"), b[2]))
+        else:
+            ctx.violation("rnode_parse", "a parse error leaves unparsed input",
+                          "on the pattern %r an atom fails to parse and its partial tree is discarded, yet the "
+                          "parser returns a tree with the cursor on the terminator: regcomp cannot tell, and "
+                          "compiles only a prefix of the pattern" % b[1].decode("latin-1"))
+    else:
+        ctx.ok("rnode_parse", "on %d patterns (all strings of length <= %d over %d metacharacters, plus long "
+               "repetition/parenthesis errors) a discarded partial tree always leaves the cursor before the "
+               "terminator or yields no tree" % (n_eval, N, len(alpha)))
+
+
+
+RULES = {"R1": rule_R1, "R2": rule_R2, "R3": rule_R3, "R7": rule_R7, "R8": rule_R8, "R10": rule_R10, "R11": rule_R11}
